@@ -22,12 +22,17 @@ B1 == Str(<<b>>)
 C1 == Str(<<c3>>)
 Blank == Rgx(RxPlus(Cls(<<sp>>)))
 
+RECURSIVE Nest(_, _)
+Nest(x, n) == IF n = 0 THEN x ELSE Seq1(Nest(x, n - 1))        \* [[[ ... x ... ]]]
+
 Base(ig) ==
     [rules |-> [start |-> Rule(Seq2(Ref("X"), Opt(Ref("Y")))),
                 X |-> Rule(A1),
                 Y |-> Rule(Plus(B1)),
                 K |-> Class(<<Field("k", Ref("X")), Field("rest", Star(Ref("Y")))>>),
                 Z |-> Rule(Seq2(Ref("Y"), Ref("X"))),
+                \* nested deeper than the generator's block budget: the reference to X sits in a helper function
+                Deep |-> Rule(Seq2(Str(<<37>>), Nest(Seq2(Ref("X"), Opt(Str(<<37>>))), 22))),
                 T |-> RuleP(<<"p">>, Seq2(Ref("p"), Opt(Str(<<33>>)))),          \* a parameterised rule
                 U |-> Rule(Seq2(Str(<<35>>), Call("T", <<Pos(Ref("X"))>>)))],      \* ... used with a rule name as argument
      ign |-> IF ig = "none" THEN <<>> ELSE <<Blank>>]
@@ -46,7 +51,7 @@ Derived(xo, yo, so, ko, no, addign) ==
         r3 == IF so = "override" THEN [start |-> Rule(Seq2(Opt(Ref("Y")), Ref("X")))]
               ELSE IF so = "super" THEN [start |-> Rule(Seq2(<<"super", "start">>, Opt(Str(<<33>>))))] ELSE <<>>
         r4 == IF ko = "rule" THEN [K |-> Rule(Seq2(Ref("X"), Ref("X")))] ELSE <<>>
-        r5 == IF no = "new" THEN [N |-> Rule(Seq2(Ref("X"), Ref("Z")))]
+        r5 == IF no = "new" THEN [N |-> Rule(Ch2(Ref("Deep"), Seq2(Ref("X"), Ref("Z"))))]
               ELSE IF no = "tsuper"
               THEN [T |-> RuleP(<<"p">>, Seq2(Str(<<36>>), <<"scall", "T", <<Pos(Ref("p"))>>>>)),
                     \* a rule of this level that goes through the inherited U (and so through T and X, late-bound)
@@ -110,7 +115,7 @@ Alpha == IF ig = "none" THEN <<a, b, c3>> ELSE IF ig \in {"both", "bothanon"} TH
 Texts == TextSeqUpTo(Alpha, IF Tier = "quick" THEN 3 ELSE 4)
          \o << <<a, b, b, 33>>, <<a, c3, b, b>>, <<b, b, a, c3>>, <<a, c3, b, 33>>, <<a, a, b, a>>, <<c3, c3, a>>,
                <<35, a, 33>>, <<35, 36, a, 33>>, <<35, 36, 36, a>>, <<35, c3>>, <<35, 36, c3, 33>>, <<35, 36, a, c3, 33>>,
-               <<35, 36, 36, a, c3>> >>
+               <<35, 36, 36, a, c3>>, <<37, a>>, <<37, c3>>, <<37, a, c3, 37>>, <<37, a, 37>>, <<37, c3, 37, a>> >>
          \o (IF ig = "none" THEN <<>> ELSE << <<sp, a, sp, b, sp, b>>, <<a, sp, c3, sp, b>>, <<sp, sp, a, sp, a>> >>)
 
 EntriesOf(chain, top) == SelectSeq(<<SName, "X", "Y", "K", "Z", "N", "M", "U", "V">>, LAMBDA r : HasDef(chain, 1, top, r))
